@@ -67,10 +67,17 @@ Fixpoint ascending (l : list N) : bool :=
 Definition tail_stepb (s : step) (u : N) : bool :=
   step_eqb s (Rm (u, false)) || step_eqb s (Mv (u, false) (u, true)).
 
+(* the out-of-order inputs after the log removal, oldest first: each one removed or parked (today), or parked and then - unless a
+   reader holds it - removed (deleteUnorderedFiles after fix5) *)
 Fixpoint tail_okb (tail : list step) (unord : list N) : bool :=
   match tail, unord with
   | [], [] => true
-  | s :: t, u :: r => tail_stepb s u && tail_okb t r
+  | s :: t, u :: r =>
+      tail_stepb s u &&
+      match t with
+      | s2 :: t2 => if step_eqb s (Mv (u, false) (u, true)) && step_eqb s2 (Rm (u, true)) then tail_okb t2 r else tail_okb t r
+      | [] => tail_okb t r
+      end
   | _, _ => false
   end.
 
